@@ -2,7 +2,18 @@
 """runmutant.py <patch> <PROP>... [--keep] [--test]
 applies a patch to a scratch copy of /repo (under /var/tmp), runs the named checks against the copy
 (VERIF_REPO), prints their verdicts, removes the copy.  --test additionally runs the repo's test suite on the copy."""
-import os, shutil, subprocess, sys, tempfile
+import os, shutil, subprocess, sys, tempfile, time
+
+
+def touch_all(root):
+    """cargo's freshness check is mtime based and its unit hashes are workspace-relative: a scratch copy that
+    shares a target dir with an earlier (differently patched) copy must look newer than every cached artifact"""
+    now = time.time()
+    for d, _, fs in os.walk(root):
+        for f in fs:
+            if f.endswith((".rs", ".toml")):
+                os.utime(os.path.join(d, f), (now, now))
+
 args = [a for a in sys.argv[1:] if not a.startswith("--")]
 flags = [a for a in sys.argv[1:] if a.startswith("--")]
 patch, props = args[0], args[1:]
@@ -22,6 +33,7 @@ try:
         if r.returncode != 0:
             print("PATCH-DOES-NOT-APPLY", r.stdout, r.stderr)
             sys.exit(3)
+    touch_all(scratch)
     env = dict(os.environ, VERIF_REPO=scratch, VERIF_EVIDENCE_DIR=os.path.join(scratch, "evidence"))
     if "--test" in flags:
         tenv = dict(os.environ, CARGO_TARGET_DIR=os.path.join(verif, ".work", "target-test"), CARGO_NET_OFFLINE="true")
